@@ -114,7 +114,10 @@ func coseContentReqs(t coseTerms) []treq {
 	isSA := A("+Eq(" + schemeSA + ", " + t.scheme + ")")
 	notSA := A("-Eq(" + schemeSA + ", " + t.scheme + ")")
 	pending := func(h string) LP {
-		return AG("+Empty(mapdel(map[*" + h + "=>{struct{}}*], old(re(" + t.crit + "#0))))")
+		// the must-contain-all fold (the pending set emptied by deleting the elements of crit), or a
+		// membership scan of crit for the required label itself
+		a, b := sorted2(h, "re("+t.crit+"#0)")
+		return AnyOf(AG("+Empty(mapdel(map[*"+h+"=>{struct{}}*], old(re("+t.crit+"#0))))"), A("+Eq("+a+", "+b+")"))
 	}
 	tagOK := func(l string) []LP {
 		// the tag object may be a literal (&cbor.RawTag{}) or a local (var t cbor.RawTag): any receiver
